@@ -81,6 +81,9 @@ template <class V> struct LeafSender {
       if (L.stop_seen) return;
       L.stop_seen = true; L.t_stop_seen = dk::tick();
       vk::ctx().tr("#%ld leaf %d observes stop", L.t_stop_seen, id);
+      // a stop callback that takes a while (0-2 scheduling points, by leaf id): whoever requested the stop stays inside request_stop()
+      // that long, which widens the windows in which the operation completes while the requester is still in the middle of its protocol
+      for (int k = 0; k < id % 3; ++k) detsched::yield_now();
       // completion is left to the completer thread (no synchronous completion inside the callback: see the known finding
       // stop_source_destroyed_in_callback); the completer turns it into done
       if (L.on_stop == 1) L.chan_plan = dk::DONE;
@@ -331,6 +334,9 @@ void run_script(const Script& sc, bool check, bool& nt8, bool& nt9) {
           // time; the rule is asserted only when no scope-level stop request overlaps the await)
           bool scope_stop_overlaps = false;
           for (auto& j : W.joins) if (j.kind >= 1 && j.t_begin >= 0 && j.t_begin < it.t_done && (j.t_start_end < 0 || j.t_start_end > it.t_fut_start)) scope_stop_overlaps = true;
+          // ... and the spawned operation of a v1 scope is attach(leaf): a scope-level stop request whose call overlaps the leaf's completion may win
+          // inside attach and turn the operation's result into done, whatever the leaf delivered
+          for (auto& j : W.joins) if (j.kind >= 1 && j.t_begin >= 0 && L.t_completed >= 0 && j.t_begin < L.t_completed_end && (j.t_start_end < 0 || j.t_start_end > L.t_completed)) scope_stop_overlaps = true;
           if (result_ready_at_await && !scope_stop_overlaps && it.chan != L.chan) cx.fail(P9, "ready_result_not_delivered", "future #%zu: the result (%s) was already available when the future was awaited, but it completed with %s", i, dk::chan_name(L.chan), dk::chan_name(it.chan));
           bool scope_stop_races = t_stop_begin >= 0 && t_stop_begin < L.t_completed;
           if (!scope_stop_races && it.t_fut_stop >= 0 && L.completed && L.t_completed > it.t_done && L.t_started < it.t_fut_stop && !L.stop_seen && it.chan == dk::DONE) cx.fail(P9, "cancel_not_forwarded", "future #%zu was cancelled and completed with done but never requested stop on its operation", i);
